@@ -61,6 +61,7 @@ func loadGen(dir string) (*Gen, error) {
 	})
 	g.computeAliases()
 	g.loadSnapFuncs()
+	g.loadSnapFields()
 	if os.Getenv("GOVC_TIMING") != "" {
 		defer func(t0 time.Time) { fmt.Fprintf(os.Stderr, "post-load phases: %v\n", time.Since(t0)) }(time.Now())
 	}
